@@ -43,6 +43,31 @@ def run(v, tier):
         eqp.append((N['and'](a, a), N['neg'](pi2v.IMP(a, N['neg'](a)))))
         eqp.append((N['or'](a, pi2v.EV(0)), pi2v.IMP(N['neg'](a), pi2v.EV(1))))
         eqp.append((N['neg'](N['neg'](a)), N['neg'](a)))
+    # real library notations (definitions are shared objects), applied to argument tuples that differ in ONE position
+    # (some notations ignore an argument, e.g. Kore sort parameters), and partial / over-complete applications
+    nots = py_run([{'fn': 'notations'}])[0]['res']
+    argp = [pi2v.EV(0), pi2v.EV(1), pi2v.SYM(3), pi2v.MV(0), pi2v.MV(1), N['bot'], N['neg'](pi2v.EV(0))]
+    acmds = []
+    for label, ar in nots:
+        if ar == 0:
+            continue
+        for _ in range(3 if quick else 12):
+            a = [rng.choice(argp) for _ in range(ar)]
+            b = list(a)
+            k = rng.randrange(ar)
+            b[k] = rng.choice([x for x in argp if x != a[k]])
+            acmds.append({'fn': 'apply_notation', 'label': label, 'args': a}); acmds.append({'fn': 'apply_notation', 'label': label, 'args': b})
+    ares = py_run(acmds)
+    for k in range(0, len(ares), 2):
+        if ares[k]['out'] == 'ok' and ares[k + 1]['out'] == 'ok':
+            x, y = ares[k]['res'], ares[k + 1]['res']
+            eqp.append((x, y)); eqp.append((x, x))
+            # the same application with an extra identity binding / with a binding dropped
+            extra = dict(x); extra['d'] = x['d'] + [[len(x['d']) + 3, pi2v.MV(len(x['d']) + 3)]]
+            eqp.append((x, extra))
+            if len(x['d']) > 1:
+                fewer = dict(x); fewer['d'] = x['d'][:-1]
+                eqp.append((x, fewer))
     cmds = []
     for p, q in eqp:
         cmds += [{'fn': 'eq', 'p': p, 'q': q}, {'fn': 'eq', 'p': q, 'q': p}]
